@@ -12,7 +12,7 @@ from . import common
 
 ID = 'C02'
 LEVEL = 'exploration'
-RUNS = {'quick': 12000, 'thorough': 240000}
+RUNS = {'quick': 20000, 'thorough': 400000}
 CHUNK = 60
 PROBES = ['abandoned_parse_before', 'crashed_parse_before', 'v3_with_logs_before', 'residue_before', 'duplicate_tid_in_map',
           'duplicate_pid_in_map', 'empty_map', 'pad_nonzero', 'pad_zero', 'arbitrary_record_bytes', 'name_19_bytes',
